@@ -491,9 +491,22 @@ func (g *G) genC03(p *Plan, paging bool) {
 		ops = append(ops, Op{K: "restart"})
 	}
 	prefixes := properPrefixes(keys)
-	delims := []string{"", "/"}
+	// the property's domain: keys neither start nor end with the delimiter
+	delims := []string{""}
+	cands := []string{"/"}
 	if !c.IsFS() {
-		delims = append(delims, "-", "é", "b")
+		cands = append(cands, "-", "é", "b")
+	}
+	for _, d := range cands {
+		ok := true
+		for _, k := range keys {
+			if strings.HasPrefix(k, d) || strings.HasSuffix(k, d) {
+				ok = false
+			}
+		}
+		if ok {
+			delims = append(delims, d, d)
+		}
 	}
 	nl := g.n(5, 20)
 	for i := 0; i < nl; i++ {
